@@ -211,38 +211,44 @@ def isSimple : Kind → Bool
   | .int | .float | .bool | .string => true
   | _ => false
 
+/-- the attribute a struct element carries for one attribute field -/
+def attrOf (s : Schema) (p : LtField × V) : Outcome (List (String × List Char)) :=
+  if p.1.omitempty && isEmptyValue (kindOf s 8 p.1.typ) p.2 then .ok []
+  else (simpleText (kindOf s 8 p.1.typ) p.2).map fun t => [(p.1.xmlName, t)]
+
+/-- the non-pointer part of `marshalTrees`: `recur` prints the parts (slice items, struct fields) -/
+def marshalRest (s : Schema) (recur : String → Bool → LtType → V → Outcome (List Xml.Tree))
+    (name : String) (om : Bool) (ty : LtType) (k : Kind) (v : V) : Outcome (List Xml.Tree) :=
+  match customM s ty with
+  | some n => (customText s n v).map fun t => [Xml.Tree.leaf name [] t]
+  | none =>
+    match k, v with
+    | .slice t', .list vs => (vs.mapM fun e => recur name om t' e).map List.flatten
+    | .structT n, .struct fs =>
+      match s.fieldsOf n with
+      | none => .unmodelled
+      | some fields =>
+        let dfs := dataFields fields
+        if dfs.length ≠ fs.length then .unmodelled else
+        let pairs := dfs.zip fs
+        ((pairs.filter (·.1.attr)).mapM (attrOf s)).bind fun attrs =>
+          ((pairs.filter (fun p => !p.1.attr)).mapM fun (p : LtField × V) =>
+              recur p.1.xmlName p.1.omitempty p.1.typ p.2).map fun kids =>
+            [Xml.Tree.node name attrs.flatten kids.flatten]
+    | _, _ => if isSimple k then (simpleText k v).map fun t => [Xml.Tree.leaf name [] t] else .unmodelled
+
 /-- `printer.marshalValue` for a field (or slice element) of static type `ty` named `name`: the
     elements it prints, as trees (a leaf carries character data, a node child elements).  The
     fuel bounds the nesting depth. -/
 def marshalTrees (s : Schema) : Nat → String → Bool → LtType → V → Outcome (List Xml.Tree)
   | 0, _, _, _, _ => .unmodelled
   | fuel + 1, name, om, ty, v =>
-    let k := kindOf s 8 ty
-    if om && isEmptyValue k v then .ok [] else
-    match k, v with
+    if om && isEmptyValue (kindOf s 8 ty) v then .ok [] else
+    match kindOf s 8 ty, v with
     | .ptr _, .nil => .ok []
     | .ptr t', .ptr v' => marshalTrees s fuel name false t' v'    -- omitempty was decided on the pointer
-    | _, _ =>
-      match customM s ty with
-      | some n => (customText s n v).map fun t => [Xml.Tree.leaf name [] t]
-      | none =>
-        match k, v with
-        | .slice t', .list vs => (vs.mapM fun e => marshalTrees s fuel name om t' e).map List.flatten
-        | .structT n, .struct fs =>
-          match s.fieldsOf n with
-          | none => .unmodelled
-          | some fields =>
-            let dfs := dataFields fields
-            if dfs.length ≠ fs.length then .unmodelled else
-            let pairs := dfs.zip fs
-            ((pairs.filter (·.1.attr)).mapM fun (p : LtField × V) =>
-                let fk := kindOf s 8 p.1.typ
-                if p.1.omitempty && isEmptyValue fk p.2 then Outcome.ok ([] : List (String × List Char))
-                else (simpleText fk p.2).map fun t => [(p.1.xmlName, t)]).bind fun attrs =>
-              ((pairs.filter (fun p => !p.1.attr)).mapM fun (p : LtField × V) =>
-                  marshalTrees s fuel p.1.xmlName p.1.omitempty p.1.typ p.2).map fun kids =>
-                [Xml.Tree.node name attrs.flatten kids.flatten]
-        | _, _ => if isSimple k then (simpleText k v).map fun t => [Xml.Tree.leaf name [] t] else .unmodelled
+    | .ptr _, _ => .unmodelled
+    | k, v => marshalRest s (marshalTrees s fuel) name om ty k v
 
 /-- the token stream the printer is fed -/
 def marshalValue (s : Schema) (fuel : Nat) (name : String) (om : Bool) (ty : LtType) (v : V) :
